@@ -48,6 +48,46 @@ def run(tier, seed, replay=None):
         if "replacements" in st:
             st["replacements"][0]["impls"] = ["Display", "FromStr", "Default"]
         base.append(("g%04d" % i, doc, st))
+    # shapes that pass through the hash collections typify uses internally (duplicate detection, exclusivity
+    # tests, name de-duplication), each with enough elements for an iteration order to show
+    vals = ["red", "green", "blue", "amber", "violet", "teal", "a-b", "a_b", "a b", "X", "x", "Y-1", "y_1"]
+    names = schemagen.PROP_NAMES
+    for i in range(max(24, N // 3)):
+        r = util.rng(seed, PROP, "hashy", i)
+        k = i % 6
+        if k == 0:      # oneOf of string-enum / const subschemas with repeated values
+            branches = []
+            for _ in range(r.randrange(2, 5)):
+                branches.append(r.choice([{"type": "string", "enum": r.sample(vals, r.randrange(1, 5))},
+                                          {"type": "string", "const": r.choice(vals)}]))
+            branches.append({"type": "string", "enum": [branches[0].get("const") or branches[0]["enum"][0], r.choice(vals)]})
+            s_ = {"oneOf": branches}
+        elif k == 1:    # one enum with repeated values and colliding identifiers
+            vs = r.sample(vals, r.randrange(3, 8))
+            s_ = {"type": "string", "enum": vs + r.sample(vs, 2)}
+        elif k == 2:    # anyOf of objects told apart by their required sets
+            bs = []
+            for _ in range(r.randrange(2, 5)):
+                ps = r.sample(names, r.randrange(2, 5))
+                bs.append({"type": "object", "properties": {n_: {"type": r.choice(["string", "integer"])} for n_ in ps},
+                           "required": r.sample(ps, r.randrange(1, len(ps) + 1)), "additionalProperties": False})
+            s_ = {"anyOf": bs}
+        elif k == 3:    # externally tagged union with repeated variant names
+            ns = r.sample(vals, 4)
+            s_ = {"oneOf": [{"type": "object", "required": [n_], "properties": {n_: {"type": "integer"}},
+                             "additionalProperties": False} for n_ in ns + [ns[0]]] +
+                  [{"type": "string", "enum": r.sample(vals, 3)}]}
+        elif k == 4:    # several discriminator candidates / several common constant members
+            tags = r.sample(["kind", "type", "t", "variant", "class"], r.randrange(2, 5))
+            s_ = {"oneOf": [{"type": "object", "properties": dict({t_: {"type": "string", "enum": ["v%d" % j]} for t_ in tags},
+                                                                   **{"p%d" % j: {"type": "integer"}}),
+                             "required": tags} for j in range(r.randrange(2, 5))]}
+        else:           # allOf of objects with many members, defaults and a typed extra map
+            s_ = {"allOf": [{"type": "object", "properties": {n_: {"type": "string", "default": n_} for n_ in r.sample(names, 4)}},
+                            {"type": "object", "properties": {n_: {"type": "integer"} for n_ in r.sample(names, 4)},
+                             "additionalProperties": {"type": "string"}}]}
+        doc = {"definitions": {"Hashy": s_, "User": {"type": "object", "properties": {"h": {"$ref": "#/definitions/Hashy"}}}}}
+        base.append(("h%04d" % i, doc, {"struct_builder": bool(i % 2)}))
     opts = {"facts": False, "types": False, "has_impl": False, "hooks": False, "code": True}
     digests = {}   # cid -> {(k,p): (tokens_hash, sha(code))}
     unstable = set()
